@@ -806,7 +806,8 @@ def main():
             print("%-45s| %s" % (tag[-45:], l))
         return 0
     if a.unit:
-        r = run_unit(a.unit, REPO, a.tier)
+        # (developer aid: VERIF_NO_PROBE=1 skips the vacuity probe of a single-unit run; never set for the registered commands)
+        r = run_unit(a.unit, REPO, a.tier, probe=not os.environ.get("VERIF_NO_PROBE"), workdir="_unit" + os.environ.get("VERIF_BUILD_TAG", ""))
         print("unit=%s status=%s reason=%s verified=%d errors=%d queries=%d smt_ms=%d wall=%.1f probe=%s"
               % (r.unit, r.status, r.reason, r.verified, r.errors, r.smt_queries, r.smt_ms, r.wall, r.probe))
         for fl in r.failures:
